@@ -46,11 +46,13 @@ CHECKS = {
              "(1) no path from a mutable reborrow of *self to an Err return, and on abstract cases a decided Err leaves the abstract tree unchanged; "
              "(2) every `.unwrap()`ed storage addition is preceded by the same addition on a clone of the root total whose failure returns Err(Overflow); "
              "(3) weight predicate and Overflow verdicts on interval cases; (4) parent map floor((i-1)/2) at all five writers, child maps 2i+1/2i+2 at both "
-             "readers (symbolic index terms by value numbering), mutually inverse, walks write at the stepped index; (6) try_sample's InsufficientNonZero clause. "
+             "readers (symbolic index terms by value numbering), mutually inverse, walks write at the stepped index and run until index 0; (6) try_sample's InsufficientNonZero clause; "
+             "(7) every return path of `get` subtracts both children unless the comparisons taken imply the child is out of range; (8) an Ok return of `update` that "
+             "writes nothing must have pinned weight == get(index) by the comparisons on its path (finite set of orderings). "
              "These hold for every history because they are properties of the code, not of a run.",
         design_ref="DESIGN.md 5/C09",
         note="NOT decided: that after an arbitrary history the tree equals a fresh build (needs the inductive subtotal invariant over histories), "
-             "`get` values, in-range-index panic freedom beyond the cases analysed. Trusted: rand's Weight::checked_add_assign contract, Vec contracts.",
+             "`get` values beyond clause (7), in-range-index panic freedom beyond the cases analysed. Trusted: rand's Weight::checked_add_assign contract, Vec contracts.",
         technique="CFG reachability (mutation-before-error), call ordering, symbolic index-term extraction (value numbering) and abstract interpretation of the weight predicate on MIR",
         engine="rdx+E4+E2",
     ),
@@ -72,12 +74,13 @@ CHECKS = {
         category="other",
         text="Abstract interpretation of every sampler (33 families x f32/f64) on representatives of every constructor Ok outcome with finite "
              "arguments: one generic run (draws range over the interior of their distribution) and one tagged run per draw site and special point "
-             "(closed end-point, exact 0 or 1/2, extreme word) — exactly the property's 'one adversarial word' quantifier, which no seeded test reaches "
-             "(2^-53 events). Three stated clauses: (a) no tagged draw adds NaN/inf to the result; (b) NaN-freedom/finiteness/lower bound of the generic "
+             "(closed end-point, exact 0, 1/2 or the largest value, extreme word) — exactly the property's 'one adversarial word' quantifier, which no seeded test reaches "
+             "(2^-53 events). Three stated clauses: (a) no tagged draw adds NaN/inf to the result or leaves the support the generic run proved (and, where all "
+             "parameters are single points, the upper end of the support with IEEE rounding of exact values: Zipf <= n); (b) NaN-freedom/finiteness/lower bound of the generic "
              "result where it follows from signs and guards (recorded as a reference list of proved obligations); (c) every panic edge in sampling code "
-             "is discharged or listed. Found: Exp1 tail +inf (fixed), Gumbel/Frechet/StudentT(1)/FisherF(.,1) infinities (known findings).",
+             "is discharged or listed. Found: Exp1 tail +inf (fixed), Zipf(1, s) = 2 (fixed), Gumbel/Frechet/StudentT(1)/FisherF(.,1) infinities (known findings).",
         design_ref="DESIGN.md 5/C03, 4 (envelope), 9 (findings)",
-        note="Envelope semantics: finite op finite is finite, so rounding escapes (Zipf n+1, Triangular/Pert <= max within ulps, HIN tail) and "
+        note="Envelope semantics: finite op finite is finite, so rounding escapes (Zipf n+1 for n > 1, Triangular/Pert <= max within ulps, HIN tail) and "
              "overflow for extreme parameters are out of scope; upper bounds needing relational reasoning (Beta <= 1, Binomial <= n, Hypergeometric range) "
              "and the weighted indices are NOT decided; obligations never proved are reported (unproved), not alarmed. A recorded obligation that stops being "
              "provable is an alarm, which can also be caused by a behaviour-preserving rewrite the domains cannot follow (stated in DESIGN.md 8).",
@@ -106,10 +109,10 @@ CHECKS = {
              "a loop-carried recurrence/iterator; the three documented escape hatches exist and dominate/are placed where they work. This is a "
              "NECESSARY structural condition for termination, valid for every parameter value and stream; it does not bound iteration counts.",
         design_ref="DESIGN.md 5/C05",
-        note="Not decided: mean/maximum number of RNG words, acceptance rates, data-bounded recurrences (BTPE 5.1 / H2PE 4.1, e.g. the 2^63-step walk for "
-             "Binomial(u64::MAX, 0.5) named in the property), CPU time. Trusted: rand's uniform samplers return; core iterators are finite.",
-        technique="CFG analysis on rustc MIR: natural loops, exit-edge enumeration, in-loop backward def-use slicing, dominators, call-graph SCCs",
-        engine="rdx+E4",
+        note="Not decided: mean/maximum number of RNG words, acceptance rates, CPU time; data-bounded recurrences are bounded only in the definite sense above "
+             "(a long walk that needs two coinciding conditions the interval domain joins away, e.g. H2PE's float proposal, is not seen). Trusted: rand's uniform samplers return; core iterators are finite.",
+        technique="CFG analysis on rustc MIR (natural loops, exit-edge enumeration, in-loop backward def-use slicing, dominators, call-graph SCCs) plus abstract interpretation for return paths and loop trip bounds",
+        engine="rdx+E4+E2",
     ),
     "C06": dict(
         category="other",
@@ -142,7 +145,8 @@ CHECKS = {
         text="Type-and-effect proof over the resolved monomorphic program: every distribution type is plain data at every depth, "
              "no mutable/interior-mutable/thread-local static exists or is reachable, no user unsafe, and the transitive resolved call "
              "graph (incl. dependency MIR) of every crate-local function reaches no entropy/clock/thread/env/atomic/cell API; Clone and "
-             "PartialEq are derived or field-wise; Distribution impls define only `sample`. In safe Rust this implies sample(&self, rng) "
+             "PartialEq are derived or field-wise (a hand-written clone_from must rewrite every field on every path); Distribution impls define only `sample` "
+             "and no inherent method shadows sample/sample_iter/map. In safe Rust this implies sample(&self, rng) "
              "is a function of (*self, rng state) and cannot modify *self — for every input and call history, which no test can enumerate.",
         design_ref="DESIGN.md 5/C14",
         note="Trusted: rustc's type system/borrow checker and its resolved MIR call graph; leaf functions without MIR (compiler intrinsics, "
